@@ -94,6 +94,14 @@ def run(res, tier, seed):
                "    ecall\n",
                "main:\n    jal fn_a\n    jal fn_b\n    jal fn_c\n    addi a7, zero, 10\n    ecall\nfn_a:\n    addi a0, a0, 1\nfn_b:\nfn_c:\n"
                "    addi a0, a0, 2\n    ret\n"]
+    # an entry that belongs to several functions (f runs on into g, h too) and is also the target of a
+    # plain jump: one item per jump, however many functions own the entry
+    shared += ["main:\n    li a0, 0\n    jal f\n    jal g\n    li a7, 10\n    ecall\nf:\n    addi a0, a0, 1\n    beqz a0, g\n    j g\n"
+               "g:\n    addi a0, a0, 2\n    ret\n",
+               "main:\n    li a0, 0\n    jal f\n    jal h\n    jal g\n    li a7, 10\n    ecall\nh:\n    addi a0, a0, 3\n    bnez a0, g\n"
+               "f:\n    addi a0, a0, 1\n    beqz a0, g\n    j g\ng:\n    addi a0, a0, 2\n    ret\n",
+               "main:\n    li a0, 0\n    jal f\n    jal g\n    li a7, 10\n    ecall\nf:\n    addi a0, a0, 1\n    bltz a0, skip\n    j g\nskip:\n"
+               "    addi a0, a0, 5\ng:\n    addi a0, a0, 2\n    ret\n"]
     # one saved register overwritten on both arms of a branch (at the same and at different distances
     # from the single return), on three arms, and twice on one arm: every overwrite is found whatever
     # order the backward search meets them in
